@@ -375,6 +375,19 @@ struct El {  // integral
   static const char *name() { return sizeof(T) == 1 ? "TC1" : sizeof(T) == 4 ? "TC4" : "TCx"; }
   static const char *cat() { return "TC"; }
 };
+/// signed one-byte elements with NEGATIVE values: value v is stored as -v when v is odd (comparisons of the containers
+/// are checked against std::vector<T>, so the mapping need not be monotone)
+template <>
+struct El<signed char> {
+  typedef signed char T;
+  static const bool tracked = false;
+  static T make(int v) { return static_cast<T>((v & 1) ? -v : v); }
+  static int val(const T &e) { return e < 0 ? -static_cast<int>(e) : static_cast<int>(e); }
+  static bool sane(const T &, const char **) { return true; }
+  static long ident(const T &e) { return static_cast<long>(e); }
+  static const char *name() { return "TCS1"; }
+  static const char *cat() { return "TC"; }
+};
 template <>
 struct El<TC12> {
   static const bool tracked = false;
